@@ -984,6 +984,18 @@ func (e *fnEnc) enterLoop(li *loopInfo, entry *state) *state {
 			head.heap[k] = nh
 			// implicit frame: cells allocated before function entry and outside `modifies`
 			// are unchanged. Justified by the frame obligation on every store.
+			if regs, ok := e.appendOnlyWriters(li, k, entryVals); ok {
+				// Loop frame for append-only loops: the loop writes cells of sort k only by
+				// appending to the slices held in its header variables (and by initialising
+				// objects it allocates itself). A cell of an object that existed on loop entry
+				// and lies outside the entry backing arrays of those slices is unchanged.
+				e.hasQuant = true
+				var outs []string
+				for _, r := range regs {
+					outs = append(outs, fmt.Sprintf("(not (and ((_ is idx) a) (= (idx_b a) (s_base %s)) (bvule (s_off %s) (idx_i a)) (bvult (idx_i a) (bvadd (s_off %s) (s_cap %s)))))", r, r, r, r))
+				}
+				e.emit(fmt.Sprintf("(assert (forall ((a Ref)) (! (=> (and (< (rootn a) %s) %s) (= (select %s a) (select %s a))) :pattern ((select %s a)))))", entry.next, and(outs...), nh, old, nh))
+			}
 			if e.fc != nil && e.fc.ModSet && !e.fc.ModAll {
 				e.hasQuant = true
 				outside := "true"
@@ -1447,4 +1459,127 @@ func (e *fnEnc) loopStoresLocal(li *loopInfo, a *ssa.Alloc) bool {
 		}
 	}
 	return false
+}
+
+// appendOnlyWriters: every instruction of the loop that can write a cell of heap key k is an
+// append whose destination is (derived from) a header variable of this loop, or a store into
+// an object allocated inside the loop. Returns the entry values of those header slices.
+func (e *fnEnc) appendOnlyWriters(li *loopInfo, k string, entryVals map[*ssa.Phi]string) ([]string, bool) {
+	var regs []string
+	seen := map[*ssa.Phi]bool{}
+	keyOf := func(t types.Type) map[string]bool {
+		ks := map[string]bool{}
+		var add func(t types.Type)
+		add = func(t types.Type) {
+			switch u := t.Underlying().(type) {
+			case *types.Struct:
+				for i := 0; i < u.NumFields(); i++ {
+					add(u.Field(i).Type())
+				}
+			case *types.Array:
+				add(u.Elem())
+			default:
+				if hk := e.sortOf(t).heapKey(); hk != "" {
+					ks[hk] = true
+				}
+			}
+		}
+		add(t)
+		return ks
+	}
+	var rootPhi func(v ssa.Value, depth int) *ssa.Phi
+	rootPhi = func(v ssa.Value, depth int) *ssa.Phi {
+		if depth > 6 {
+			return nil
+		}
+		switch x := v.(type) {
+		case *ssa.Phi:
+			if x.Block() == li.head {
+				return x
+			}
+			// a merge inside the loop body: all incoming values must lead to the same header phi
+			var r *ssa.Phi
+			for _, ed := range x.Edges {
+				p := rootPhi(ed, depth+1)
+				if p == nil || (r != nil && p != r) {
+					return nil
+				}
+				r = p
+			}
+			return r
+		case *ssa.Call:
+			if bi, ok := x.Call.Value.(*ssa.Builtin); ok && bi.Name() == "append" {
+				return rootPhi(x.Call.Args[0], depth+1)
+			}
+		case *ssa.Slice:
+			return rootPhi(x.X, depth+1)
+		}
+		return nil
+	}
+	var allocInLoop func(v ssa.Value, depth int) bool
+	allocInLoop = func(v ssa.Value, depth int) bool {
+		if depth > 6 {
+			return false
+		}
+		switch x := v.(type) {
+		case *ssa.Alloc:
+			return li.blocks[x.Block()]
+		case *ssa.MakeSlice:
+			return li.blocks[x.Block()]
+		case *ssa.FieldAddr:
+			return allocInLoop(x.X, depth+1)
+		case *ssa.IndexAddr:
+			return allocInLoop(x.X, depth+1)
+		case *ssa.Slice:
+			return allocInLoop(x.X, depth+1)
+		}
+		return false
+	}
+	for b := range li.blocks {
+		for _, ins := range b.Instrs {
+			switch v := ins.(type) {
+			case *ssa.Store:
+				if !keyOf(v.Val.Type())[k] {
+					continue
+				}
+				if a, ok := v.Addr.(*ssa.Alloc); ok && localCell(a) {
+					continue
+				}
+				if !allocInLoop(v.Addr, 0) {
+					return nil, false
+				}
+			case *ssa.Alloc, *ssa.MakeSlice, *ssa.MakeMap, *ssa.MakeChan, *ssa.MakeClosure:
+				// initialisation of fresh objects
+			case *ssa.MakeInterface:
+			case ssa.CallInstruction:
+				c := v.Common()
+				if bi, ok := c.Value.(*ssa.Builtin); ok {
+					switch bi.Name() {
+					case "append":
+						sl, ok := c.Args[0].Type().Underlying().(*types.Slice)
+						if !ok || !keyOf(sl.Elem())[k] {
+							continue
+						}
+						p := rootPhi(c.Args[0], 0)
+						if p == nil {
+							return nil, false
+						}
+						if !seen[p] {
+							seen[p] = true
+							regs = append(regs, entryVals[p])
+						}
+					case "copy":
+						if sl, ok := c.Args[0].Type().Underlying().(*types.Slice); ok && keyOf(sl.Elem())[k] {
+							return nil, false
+						}
+					}
+					continue
+				}
+				if e.callEffect(c) != effNone {
+					return nil, false
+				}
+			}
+		}
+	}
+	return regs, true
 }
